@@ -5,10 +5,7 @@ import re
 
 from typing import cast
 
-from pendulum.constants import HOURS_PER_DAY
-from pendulum.constants import MINUTES_PER_HOUR
 from pendulum.constants import MONTHS_OFFSETS
-from pendulum.constants import SECONDS_PER_MINUTE
 from pendulum.duration import Duration
 from pendulum.helpers import days_in_year
 from pendulum.helpers import is_leap
@@ -295,7 +292,7 @@ def _parse_iso8601_duration(text: str, **options: str) -> Duration | None:
         if "." in _weeks:
             _weeks, portion = _weeks.split(".")
             weeks = int(_weeks)
-            days = int(portion) / 10 ** len(portion) * 7
+            microseconds += _fraction_us(portion, 7 * 86400)
         else:
             weeks = int(_weeks)
 
@@ -342,7 +339,7 @@ def _parse_iso8601_duration(text: str, **options: str) -> Duration | None:
 
                 _days, _hours = _days.split(".")
                 days = int(_days)
-                hours = int(_hours) / 10 ** len(_hours) * HOURS_PER_DAY
+                microseconds += _fraction_us(_hours, 86400)
             else:
                 days = int(_days)
 
@@ -376,7 +373,7 @@ def _parse_iso8601_duration(text: str, **options: str) -> Duration | None:
 
                 _hours, _mins = _hours.split(".")
                 hours += int(_hours)
-                minutes += int(_mins) / 10 ** len(_mins) * MINUTES_PER_HOUR
+                microseconds += _fraction_us(_mins, 3600)
             else:
                 hours += int(_hours)
 
@@ -391,7 +388,7 @@ def _parse_iso8601_duration(text: str, **options: str) -> Duration | None:
 
                 _minutes, _secs = _minutes.split(".")
                 minutes += int(_minutes)
-                seconds += int(_secs) / 10 ** len(_secs) * SECONDS_PER_MINUTE
+                microseconds += _fraction_us(_secs, 60)
             else:
                 minutes += int(_minutes)
 
@@ -404,9 +401,7 @@ def _parse_iso8601_duration(text: str, **options: str) -> Duration | None:
             if "." in _seconds:
                 _seconds, _microseconds = _seconds.split(".")
                 seconds += int(_seconds)
-                microseconds += round(
-                    int(_microseconds) / 10 ** len(_microseconds) * 1000000
-                )
+                microseconds += _fraction_us(_microseconds, 1)
             else:
                 seconds += int(_seconds)
 
@@ -420,6 +415,14 @@ def _parse_iso8601_duration(text: str, **options: str) -> Duration | None:
         seconds=seconds,
         microseconds=microseconds,
     )
+
+
+def _fraction_us(digits: str, unit_seconds: int) -> int:
+    """
+    Microseconds in the decimal fraction "0.<digits>" of a unit of
+    unit_seconds seconds (computed like the compiled parser does).
+    """
+    return round(int(digits) / 10 ** len(digits) * float(unit_seconds) * 1000000.0)
 
 
 def _get_iso_8601_week(
